@@ -2,6 +2,8 @@
 
 from __future__ import absolute_import
 
+import copy
+
 #    mingus - Music theory Python package, track module.
 #    Copyright (C) 2008-2009, Bart Spaans
 #
@@ -75,13 +77,18 @@ class Track(object):
         # Check whether the last bar is full, if so create a new bar and add the
         # note there
         if len(self.bars) == 0:
-            self.bars.append(Bar())
-        last_bar = self.bars[-1]
-        if last_bar.is_full():
-            self.bars.append(Bar(last_bar.key, last_bar.meter))
-            # warning should hold note if it doesn't fit
+            new_bar = Bar()
+        elif self.bars[-1].is_full():
+            new_bar = Bar(self.bars[-1].key, self.bars[-1].meter)
+        else:
+            return self.bars[-1].place_notes(note, duration)
 
-        return self.bars[-1].place_notes(note, duration)
+        # The new bar only joins the track when the note fits in it: a note
+        # that is refused changes nothing
+        if new_bar.place_notes(note, duration):
+            self.bars.append(new_bar)
+            return True
+        return False
 
     def get_notes(self):
         """Return an iterator that iterates through every bar in the this
@@ -106,27 +113,35 @@ class Track(object):
         """
         tun = self.get_tuning()
 
+        def place(notes, duration):
+            """Place the notes (None for a rest), split over as many bar lines
+            as it takes; every piece gets a NoteContainer of its own."""
+            while not self.add_notes(notes, duration):
+                # This should be the standard behaviour of add_notes
+                if len(self.bars) == 0:
+                    room = 1.0 / Bar().length
+                elif self.bars[-1].is_full():
+                    room = 1.0 / Bar(self.bars[-1].key, self.bars[-1].meter).length
+                else:
+                    room = self.bars[-1].value_left()
+                self.add_notes(notes, room)
+                duration = value.subtract(duration, room)
+                notes = copy.deepcopy(notes)
+
         def add_chord(chord, duration):
             if isinstance(chord, list):
                 for c in chord:
                     add_chord(c, duration * 2)
+            elif chord is None:
+                place(None, duration)
             else:
                 chord = NoteContainer().from_chord(chord)
                 if tun:
                     chord = tun.find_chord_fingering(chord, return_best_as_NoteContainer=True)
-                if not self.add_notes(chord, duration):
-                    # This should be the standard behaviour of add_notes
-                    dur = self.bars[-1].value_left()
-                    self.add_notes(chord, dur)
-
-                    # warning should hold note
-                    self.add_notes(chord, value.subtract(duration, dur))
+                place(chord, duration)
 
         for c in chords:
-            if c is not None:
-                add_chord(c, duration)
-            else:
-                self.add_notes(None, duration)
+            add_chord(c, duration)
         return self
 
     def get_tuning(self):
